@@ -17,6 +17,7 @@ CONFIGS = {
     "Q2":  dict(W=2, sfx="Q2"),
     "Q2m": dict(W=2, sfx="Q2m"),
     "Q6":  dict(W=1, sfx="Q6"),
+    "Q6e": dict(W=2, sfx="Q6e"),
     "Q6b": dict(W=1, sfx="Q6b"),
     "Q6c": dict(W=1, sfx="Q6c"),
     "Q6d": dict(W=1, sfx="Q6d", inactive=True),
